@@ -164,9 +164,8 @@ pub fn judge(scn: &Scenario, rr: &RunResult, out: &mut Vec<Viol>) {
     let mut last_tick_begin: Option<(u64, u32)> = None;
     let mut first_restart_mark: Option<usize> = None;
     let mut cleared_to: Option<u32> = None;
-    // C11: the items the snapshot currently lists as matches (a snapshot whose match list did not
-    // change still lists the same items, whatever its accessors return now)
-    let mut snap_matches: Vec<(u32, u32)> = Vec::new();
+    // C11: the items the snapshot currently lists as matches (a snapshot that a tick reports as
+    // unchanged still lists the same items, whatever its accessors return now)
     let mut snap_listed: Vec<crate::e2::ItemData> = Vec::new();
     for (oi, o) in obs.iter().enumerate() {
         if matches!(o, Obs::Restart { .. }) && first_restart_mark.is_none() {
@@ -203,8 +202,9 @@ pub fn judge(scn: &Scenario, rr: &RunResult, out: &mut Vec<Viol>) {
             Obs::TickBegin { t, gen, .. } => last_tick_begin = Some((*t, *gen)),
             Obs::TickEnd { t, changed, running, before, after, cur_pattern } => {
                 let when = format!("tick ending at t={t}");
-                if after.matches != snap_matches || snap_matches.is_empty() {
-                    snap_matches = after.matches.clone();
+                // a tick that reports "unchanged" leaves the snapshot listing what it listed (C19);
+                // otherwise it lists what its accessors return now
+                if *changed {
                     snap_listed = after.items.iter().flatten().copied().collect();
                 }
                 check_snapshot_c06(after, &when, out);
@@ -259,8 +259,8 @@ pub fn judge(scn: &Scenario, rr: &RunResult, out: &mut Vec<Viol>) {
             }
             Obs::Restart { t, clear, before, after, new_gen } => {
                 let when = format!("restart({clear}) at t={t}");
-                if after.matches != snap_matches || snap_matches.is_empty() {
-                    snap_matches = after.matches.clone();
+                // restart(true) empties the snapshot, restart(false) leaves it exactly as it was
+                if *clear {
                     snap_listed = after.items.iter().flatten().copied().collect();
                 }
                 if *clear {
